@@ -155,7 +155,7 @@ def body():
                         if got.shape != want.shape:
                             got = got.reshape(want.shape)
                         e_ = np.abs(got - want).max() / max(1e-12, np.abs(want).max())
-                        if e_ > tol:
+                        if not (e_ <= tol):   # NaN counts as a deviation
                             fail("kernel_sum:%s" % name, "%s differs from the closed-form kernel sum over the quadrature points by %.3g" % (name, e_))
 
                     if scalar:
@@ -195,7 +195,7 @@ def body():
                                         raise common.MachineryError("limit clause not evaluable (overflow) for k = %s at r = %g" % (k, r_))
                                     worst["limit"] = max(worst["limit"], float(e_ / bound))
                                     chk.count((sig, "limit", nm, k), True)
-                                    if e_ > bound:
+                                    if not (e_ <= bound):   # NaN counts as a deviation
                                         fail("limit:helmholtz.%s" % nm, "far field differs from r exp(-ikr) potential(r x) at r = %.0f D by %.3g (bound %.3g, k = %s)" % (r_ / Dm, e_, bound, k))
                     else:
                         divs = surface_div(grid, sp, c, els)
@@ -236,7 +236,7 @@ def body():
                                         raise common.MachineryError("limit clause not evaluable (overflow) for k = %s at r = %g" % (k, r_))
                                     worst["limit"] = max(worst["limit"], float(e_ / bound))
                                     chk.count((sig, "limit", nm, k), True)
-                                    if e_ > bound:
+                                    if not (e_ <= bound):   # NaN counts as a deviation
                                         fail("limit:maxwell.%s" % nm, "far field differs from r exp(-ikr) potential(r x) at r = %.0f D by %.3g (bound %.3g, k = %s)" % (r_ / Dm, e_, bound, k))
                     # ---- normals of one domain swapped: the double-layer type kernels take the normal of the element with its multiplier
                     doms = sorted(set(int(x) for x in grid.domain_indices))
@@ -270,7 +270,7 @@ def body():
                                 a1 = np.asarray(F(sp2, dirs, k).evaluate(f2))
                                 chk.count((sig, "translation", nm, k), True)
                                 e_ = np.abs(a1 - a0 * phase[None, :]).max() / max(1e-12, np.abs(a0 * phase[None, :]).max())
-                                if e_ > TOL:
+                                if not (e_ <= TOL):   # NaN counts as a deviation
                                     fail("translation:%s" % nm, "far field of the grid translated by t is not exp(-ik x.t) times the original (k = %s): %.3g" % (k, e_))
                     # ---- (d) PDEs by central differences (first space of each kind)
                     if n_sp == 0:
@@ -297,7 +297,7 @@ def body():
                                 r1 = np.abs(resid).max() / max(1e-14, scale)
                                 worst["pde"] = max(worst["pde"], float(r1))
                                 chk.count((sig, "pde", name), True)
-                                if r1 > 5e-3:
+                                if not (r1 <= 5e-3):   # NaN counts as a deviation
                                     fail("pde:%s" % name.split(" ")[0], "%s: finite-difference residual %.3g of the size of its terms (step %.3g)" % (name, r1, h / 2))
 
                             if scalar:
